@@ -172,6 +172,8 @@ ApplyNested(ctx, P, run, i, si, li, depth) ==                   \* [run, d, tags
       t == EffType(N)
       Same == [run |-> run, d |-> 0, tags |-> {}] IN
   IF j = 0 THEN [Same EXCEPT !.tags = {"nested-index-beyond-run"}]
+  \* sequence index 0 after an earlier record deleted the last glyph of the run (empty multiple sequence)
+  ELSE IF j > Len(run) THEN [Same EXCEPT !.tags = {"nested-index-past-run-end"}]
   ELSE IF ctx.dev.refilter /\ ~Matches(ctx, N, run[j].g) THEN [Same EXCEPT !.tags = {"nested-refiltered"}]
   ELSE
   CASE t = 1 -> LET r == SingleAt(N, run, j) IN [run |-> r.run, d |-> 0, tags |-> {"nested-" \o r.tag}]
@@ -206,7 +208,8 @@ ContextAt(ctx, L, run, i, depth) ==                             \* [hit, run, ad
                  \cup (IF r.look # <<>> THEN {"context-lookahead"} ELSE {})
                  \cup (IF Len(r.recs) > 1 THEN {"context-many-records"} ELSE {})
                  \cup (IF a.d # 0 THEN {"context-length-change"} ELSE {})
-                 \cup (IF len + a.d <= 0 THEN {"context-shrunk-to-nothing"} ELSE {})]
+                 \cup (IF len + a.d <= 0 THEN {"context-shrunk-to-nothing"} ELSE {})
+                 \cup (IF len + a.d < 0 THEN {"context-shrunk-below-zero"} ELSE {})]
 
 ---------------------------------------------------------------------------
 (* One iteration of the forward loop of gsub_apply_lookup: lookup L at run  *)
@@ -244,6 +247,18 @@ ApplyLookup(ctx, li, alt, run) ==
   LET L == ctx.lookups[li + 1] IN
   IF IsReverse(L) THEN WalkRev(ctx, L, run, Len(run)) ELSE WalkFwd(ctx, L, run, 1, alt)
 
+\* the branches of the specification a whole lookup takes (used to classify mismatches, never to judge)
+RECURSIVE TagsFwd(_, _, _, _, _), TagsRev(_, _, _, _)
+TagsFwd(ctx, L, run, i, alt) ==
+  IF i > Len(run) THEN {}
+  ELSE LET s == StepFwd(ctx, L, run, i, alt) IN s.tags \cup TagsFwd(ctx, L, s.run, s.i, alt)
+TagsRev(ctx, L, run, i) ==
+  IF i < 1 THEN {}
+  ELSE LET s == StepRev(ctx, L, run, i) IN s.tags \cup TagsRev(ctx, L, s.run, s.i)
+LookupTags(ctx, li, alt, run) ==
+  LET L == ctx.lookups[li + 1] IN
+  IF IsReverse(L) THEN TagsRev(ctx, L, run, Len(run)) ELSE TagsFwd(ctx, L, run, 1, alt)
+
 \* runs after each lookup of order = Seq(<<lookupIndex, alt>>)
 RECURSIVE Steps(_, _, _, _)
 Steps(ctx, order, run, k) ==
@@ -259,6 +274,11 @@ GsubSteps(prog, dev, inp) == Steps(Ctx(prog, dev), ProgOrder(prog), InitRun(inp)
 
 GsubDenote(prog, dev, inp) ==
   LET s == GsubSteps(prog, dev, inp) IN IF s = <<>> THEN InitRun(inp) ELSE s[Len(s)]
+
+GsubTags(prog, dev, inp) ==
+  LET ord == ProgOrder(prog)
+      st == <<InitRun(inp)>> \o GsubSteps(prog, dev, inp) IN
+  UNION {LookupTags(Ctx(prog, dev), ord[k][1], ord[k][2], st[k]) : k \in 1 .. Len(ord)}
 
 ---------------------------------------------------------------------------
 (* Observation: liga_component_pos is compared on marks only *)
